@@ -11,7 +11,8 @@ Record st := { lastp : list (key * list Z); resp : list key (* (endpoint that se
                connected : list key; born : list key (* one entry per incarnation *);
                closed : list key (* close() called locally *);
                genuine : list key (* received an intact genuine datagram *); lossy : bool ; restarted : bool (* the server process restarted (WORLD 13/11) *);
-               gone : list key (* connections whose endpoint has forgotten them (Drained) *) }.
+               gone : list key (* connections whose endpoint has forgotten them (Drained) *);
+               rotating : bool (* CID_LIFETIME_MS > 0: issued CIDs are retired and stop routing *) }.
 
 (** frames of kind [j] (stats index of tx; rx is j+1) *)
 Definition le_tx (rxp txp : list Z) (j : nat) : bool := sf rxp (j + 1) <=? sf txp j.
@@ -31,7 +32,7 @@ Definition final_ok (s : st) : bool :=
     end) (lastp s).
 
 Definition step (s : st) (r : list Z) : option st :=
-  if tag r =? 8 then Some {| lastp := aset (lastp s) (rkey r) r; resp := resp s; connected := connected s; born := born s; closed := closed s; genuine := genuine s; lossy := lossy s; restarted := restarted s; gone := gone s |}
+  if tag r =? 8 then Some {| lastp := aset (lastp s) (rkey r) r; resp := resp s; connected := connected s; born := born s; closed := closed s; genuine := genuine s; lossy := lossy s; restarted := restarted s; gone := gone s; rotating := rotating s |}
   else if tag r =? 2 then
     (* routing: a datagram produced by connection [origin] is handed to that connection only *)
     let out := fld r 5 in
@@ -39,30 +40,34 @@ Definition step (s : st) (r : list Z) : option st :=
     (* a replayed Initial whose connection is gone legitimately opens a fresh attempt
        (index 255: no pair identity); genuine and in-flight duplicates must reach their owner *)
     (* ... and so does any Initial that reaches a server process that has restarted *)
-    let fresh_attempt := (out =? 2) && ((fld r 9 =? 5) || (fld r 9 =? 6) || restarted s) in
+    (* ... or a late duplicate whose owner the endpoint has meanwhile forgotten (Drained) *)
+    let fresh_attempt := (out =? 2) && ((fld r 9 =? 5) || (fld r 9 =? 6) || restarted s
+                                        || existsb (key_eqb (rep r, origin)) (gone s)
+                                        (* ... or a delayed duplicate addressed to a CID that has been retired by rotation *)
+                                        || ((fld r 9 =? 2) && rotating s)) in
     (* a corrupted datagram (pkind 3) may carry a damaged CID and reach another connection, which
        then fails to authenticate it: only intact copies are judged *)
     if ((out =? 1) || (out =? 2)) && (0 <=? origin) && negb (fld r 9 =? 3)
        && negb ((fld r 6) mod 1000 =? origin mod 1000) && negb fresh_attempt then None
-    else if out =? 3 then Some {| lastp := lastp s; resp := (rep r, origin mod 1000) :: resp s; connected := connected s; born := born s; closed := closed s; genuine := genuine s; lossy := lossy s; restarted := restarted s; gone := gone s |}
+    else if out =? 3 then Some {| lastp := lastp s; resp := (rep r, origin mod 1000) :: resp s; connected := connected s; born := born s; closed := closed s; genuine := genuine s; lossy := lossy s; restarted := restarted s; gone := gone s; rotating := rotating s |}
     else if (out =? 1) && ((fld r 9 =? 0) || (fld r 9 =? 2)) then
       Some {| lastp := lastp s; resp := resp s; connected := connected s; born := born s; closed := closed s;
-              genuine := (rep r, fld r 6) :: genuine s; lossy := lossy s; restarted := restarted s; gone := gone s |}
+              genuine := (rep r, fld r 6) :: genuine s; lossy := lossy s; restarted := restarted s; gone := gone s; rotating := rotating s |}
     else Some s
   else if (tag r =? 3) && ((fld r 4 =? 20) || (fld r 4 =? 21)) then
     (* a new incarnation under this pair index has not connected yet *)
     Some {| lastp := lastp s; resp := resp s;
             connected := filter (fun k => negb (key_eqb k (rkey r))) (connected s);
-            born := rkey r :: born s; closed := closed s; genuine := genuine s; lossy := lossy s; restarted := restarted s; gone := gone s |}
+            born := rkey r :: born s; closed := closed s; genuine := genuine s; lossy := lossy s; restarted := restarted s; gone := gone s; rotating := rotating s |}
   else if (tag r =? 3) && (fld r 4 =? 11) then
     Some {| lastp := lastp s; resp := resp s; connected := connected s; born := born s;
-            closed := rkey r :: closed s; genuine := genuine s; lossy := lossy s; restarted := restarted s; gone := gone s |}
+            closed := rkey r :: closed s; genuine := genuine s; lossy := lossy s; restarted := restarted s; gone := gone s; rotating := rotating s |}
   else if (tag r =? 13) && (fld r 2 =? 11) then
     Some {| lastp := lastp s; resp := resp s; connected := connected s; born := born s; closed := closed s;
-            genuine := genuine s; lossy := lossy s; restarted := true; gone := gone s |}
+            genuine := genuine s; lossy := lossy s; restarted := true; gone := gone s; rotating := rotating s |}
   else if (tag r =? 5) && (fld r 4 =? 1) then
     Some {| lastp := lastp s; resp := resp s; connected := connected s; born := born s; closed := closed s;
-            genuine := genuine s; lossy := lossy s; restarted := restarted s; gone := rkey r :: gone s |}
+            genuine := genuine s; lossy := lossy s; restarted := restarted s; gone := rkey r :: gone s; rotating := rotating s |}
   else if tag r =? 11 then None
   else if tag r =? 4 then
     if (fld r 4 =? 3) && (ridx r <? 255) then
@@ -89,7 +94,7 @@ Definition step (s : st) (r : list Z) : option st :=
       (* a replayed Initial opens a fresh attempt that can only time out *)
       else if (fld r 5 =? 6) && negb (existsb (key_eqb (rkey r)) (connected s)) then Some s
       else None
-    else if fld r 4 =? 2 then Some {| lastp := lastp s; resp := resp s; connected := rkey r :: connected s; born := born s; closed := closed s; genuine := genuine s; lossy := lossy s; restarted := restarted s; gone := gone s |}
+    else if fld r 4 =? 2 then Some {| lastp := lastp s; resp := resp s; connected := rkey r :: connected s; born := born s; closed := closed s; genuine := genuine s; lossy := lossy s; restarted := restarted s; gone := gone s; rotating := rotating s |}
     else Some s
   else if tag r =? 10 then
     (* after a restart the counters of the forgotten server connections are frozen: no comparison *)
@@ -97,4 +102,4 @@ Definition step (s : st) (r : list Z) : option st :=
   else Some s.
 
 Definition monitor (i : ops) (o : outs) : option Z :=
-  snd (run_from step 0 {| lastp := []; resp := []; connected := []; born := []; closed := []; genuine := []; lossy := (100 <=? param i 6 0) || (100 <=? param i 2 0); restarted := false; gone := [] |} o).
+  snd (run_from step 0 {| lastp := []; resp := []; connected := []; born := []; closed := []; genuine := []; lossy := (100 <=? param i 6 0) || (100 <=? param i 2 0); restarted := false; gone := []; rotating := 0 <? param i 57 0 |} o).
